@@ -1,5 +1,6 @@
 """C03 — totality: never a crash or hang.  E2 census of every panic-capable site in the crate (both profiles in the
 thorough tier), each discharged by a named argument form with a machine-checked premise on E1 facts."""
+import itertools
 import re
 
 from .. import facts as F
@@ -363,8 +364,136 @@ class Discharger:
                         cov = cs[0] == "in" and set(cs[1]) <= have
                         ok_all = ok_all and cov
                         dets.append("%s passes characters of %s" % (where, peg.cs_show(cs)))
+            if not ok_all and any("not recognised" in d_ for d_ in dets):
+                ok2, det2 = self.panic_free_by_evaluation(f)
+                if ok2 is not None:
+                    return ok2, "set-cover", "arms cover %s; %s" % (sorted(have), det2)
             return ok_all, "set-cover", "arms cover %s; callers: %s" % (sorted(have), "; ".join(dets))
-        return None, "set-cover", "origin of the matched character in %s not recognised" % fn
+        ok2, det2 = self.panic_free_by_evaluation(f)
+        if ok2 is not None:
+            return ok2, "set-cover", "arms cover %s; %s" % (sorted(have), det2)
+        return None, "set-cover", "origin of the matched character in %s not recognised (%s)" % (fn, det2)
+
+    def panic_free_by_evaluation(self, f):
+        """A panicking construct in helper `f` that the syntactic forms do not explain: decide by evaluation.
+
+        Every use of `f` must be through a function value mapped over a parser (`P.map(F)`, F reaching f).  Then either the
+        texts P can match are few enough to evaluate F on every one of them, or F is evaluated on a text of unknown
+        characters with `f` left uninterpreted — showing that f is only ever applied to characters of the text — and f is
+        evaluated on every character P's set allows.  -> (ok, detail) / (None, why)"""
+        from .. import probe as P, irval
+
+        # functions through which f is reached
+        reach = {f.key}
+        changed = True
+        fns = [x for x in self.f.fns.values() if not x.test]
+        while changed:
+            changed = False
+            for g_ in fns:
+                if g_.key in reach or self.b._input_name(g_) is not None:
+                    continue  # parsers use the helper through the function values they map over their text (below)
+                if any(self.refers_to(g_, self.f.fns[k_]) for k_ in list(reach)):
+                    reach.add(g_.key)
+                    changed = True
+        # use contexts: map nodes whose function expression mentions a function of `reach`
+        contexts = []
+        covered = set()
+        for k2, f2 in self.f.fns.items():
+            if f2.test or f2.module[:1] != ("find_parser",):
+                continue
+            try:
+                fb = self.b.fn_ir(k2)
+            except F.AnchorMissing:
+                continue
+            def w(n, f2=f2):
+                if n["t"] in ("map", "trymap"):
+                    fe = n["f"]
+                    names = {x["segs"][-1] for x in find_all(fe, lambda x: x.get("k") == "path")}
+                    hit = [k_ for k_ in reach if self.f.fns[k_].name in names or fe.get("from_fn") == k_]
+                    if hit:
+                        contexts.append((f2, n))
+                        covered.update(hit)
+            self.g.walk(fb, w, follow=False)
+        if not contexts:
+            return None, "no parser hands its text to %s through a mapped function" % f.key
+        # any other use from a parser function (a plain call between two parsing steps) is not explained here
+        inside = set()
+        for _, n in contexts:
+            for x in find_all(n["f"], lambda x: x.get("k") == "path"):
+                inside.add(id(x))
+        for f2c, n in contexts:
+            fk = n["f"].get("from_fn")
+            if fk:
+                # `.map(helper)`: the path that names the helper is the mapped function itself
+                for mc in find_all(f2c.body, lambda x: x.get("k") == "mcall" and x["m"] in ("map", "try_map") and len(x["args"]) == 1):
+                    a0 = peg.strip_refs(mc["args"][0])
+                    if a0.get("k") == "path" and a0["segs"][-1] == self.f.fns[fk].name:
+                        inside.add(id(a0))
+        for f2 in fns:
+            if self.b._input_name(f2) is None or f2.key in reach:
+                continue
+            for k_ in reach:
+                tg = self.f.fns[k_]
+                for x in find_all(f2.body, lambda x: x.get("k") == "path" and x["segs"][-1] == tg.name, skip_pats=True):
+                    if id(x) not in inside and self.refers_to(f2, tg):
+                        return None, "%s uses %s outside a mapped function" % (f2.key, k_)
+        # a function of `reach` that is used in any other way (plain call from non-mapped code, public API) is not explained
+        for k_ in reach:
+            g_ = self.f.fns[k_]
+            if g_.node.get("vis") == "pub" and k_ != f.key:
+                return None, "%s is public: callers outside the crate are not bounded" % k_
+        details = []
+        for f2, n in contexts:
+            leaf = n["p"]
+            while leaf["t"] in ("map", "ctx", "cut", "trymap", "verify"):
+                leaf = leaf["p"]
+            if leaf["t"] != "set" or leaf["cs"][0] != "in":
+                return None, "the text handed over in %s is not a character run over a finite alphabet (%s)" % (f2.key, peg.show(leaf)[:40])
+            alpha = sorted(leaf["cs"][1])
+            nmax = leaf["max"]
+            total = sum(len(alpha) ** i for i in range(max(leaf["min"], 0), (nmax or 0) + 1)) if nmax is not None else None
+
+            class C(irval.Ctx):
+                def leaf(self, node):
+                    return self.text
+
+            ctx = C(self.f, self.b, f2.module)
+            if total is not None and total <= 20000:
+                for ln in range(max(leaf["min"], 0), nmax + 1):
+                    for tup in itertools.product(alpha, repeat=ln):
+                        ctx.text = "".join(tup) if not leaf.get("one") else tup[0]
+                        try:
+                            irval.value(n, ctx)
+                        except P.Panic as ex:
+                            return False, "in %s the text %r reaches %s" % (f2.key, ctx.text, ex)
+                        except P.NoEval as ex:
+                            return None, "mapped function in %s not evaluable: %s" % (f2.key, ex)
+                details.append("%s: all %d texts of %s{%d,%d} evaluated, none panics" % (f2.key, total, peg.cs_show(leaf["cs"]), leaf["min"], nmax))
+                continue
+            if not (f.params and f.params[0][1] == "char" and len(f.params) == 1):
+                return None, "unbounded text in %s and %s is not a function of one character" % (f2.key, f.key)
+            xs = [P.Opq("c%d" % i) for i in range(3)]
+            ctx.text = xs[0] if leaf.get("one") else list(xs)
+            ctx.probe.opaque_calls = {f.key}
+            try:
+                irval.value(n, ctx)
+            except P.Panic as ex:
+                return False, "in %s: %s" % (f2.key, ex)
+            except P.NoEval as ex:
+                return None, "mapped function in %s not evaluable on a text of unknown characters: %s" % (f2.key, ex)
+            log = ctx.probe.opaque_log
+            if not log or not all(len(a_) == 1 and any(a_[0] is x for x in xs) for _, a_ in log):
+                return None, "%s is applied to something other than the characters of the text in %s" % (f.key, f2.key)
+            pr = P.Probe(self.f, None, f.module)
+            for ch in alpha:
+                try:
+                    pr.invoke(f, None, [ch])
+                except P.Panic as ex:
+                    return False, "%s passes characters of %s; %r reaches %s" % (f2.key, peg.cs_show(leaf["cs"]), ch, ex)
+                except P.NoEval as ex:
+                    return None, "%s not evaluable on %r: %s" % (f.key, ch, ex)
+            details.append("%s applies it to each character of a run over %s, all of them evaluated" % (f2.key, peg.cs_show(leaf["cs"])))
+        return True, "; ".join(details)
 
     def refers_to(self, f2, target):
         """Does the body of f2 mention function `target` (as a call or as a function value)?"""
@@ -530,7 +659,6 @@ class Discharger:
 
     def radix(self, f, node, recv):
         """take_while(min..max, digits).map(|s| T::from_str_radix(s, R).unwrap()) [.map(|b| X::from_bits(b).unwrap())]"""
-        fb = self.b.fn_ir(f.key)
         hits = []
 
         def w(n):
@@ -544,9 +672,19 @@ class Discharger:
                 if inner["t"] == "set":
                     hits.append((inner, chain))
 
-        self.g.walk(fb, w, follow=False)
+        # the conversion may sit in the parser function itself or in a private helper handed to `.map(..)`
+        for k2, f2 in self.f.fns.items():
+            if f2.test or f2.module[:1] != ("find_parser",):
+                continue
+            try:
+                self.g.walk(self.b.fn_ir(k2), w, follow=False)
+            except F.AnchorMissing:
+                pass
         if not hits:
-            return None, "radix-bound", "digit source of the conversion in %s not recognised" % f.key
+            ok2, det2 = self.panic_free_by_evaluation(f)
+            if ok2 is not None:
+                return ok2, "radix-bound", det2
+            return None, "radix-bound", "digit source of the conversion in %s not recognised (%s)" % (f.key, det2)
         st, chain = hits[0]
         # find the radix conversion feeding this value
         convs = []
